@@ -120,7 +120,7 @@ def gen_corpus(rng: random.Random, today: dt.date) -> tuple[ZDir, dict]:
 
         p.blocks = [block() for _ in range(rng.randint(0, 2))]
         for si in range(rng.randint(0, 2)):
-            sec = pg.Section(level=1, words=[W(f"Sec{si}")])
+            sec = pg.Section(level=1, words=[W(rng.choice([f"Sec{si}", "Work", "Work", "Sec"])) ] + ([W(rng.choice(["Log", "A", "2"]))] if rng.random() < 0.4 else []))
             if rng.random() < 0.4:
                 t = rng.choice(TAGS)
                 sec.words.append(W("+" + t, form="tag", projects=(t,)))
@@ -130,7 +130,7 @@ def gen_corpus(rng: random.Random, today: dt.date) -> tuple[ZDir, dict]:
                 sec.words.append(W(f"{key}::{v}", props=((key, v),), form="prop"))
             sec.blocks = [block() for _ in range(rng.randint(1, 2))]
             if rng.random() < 0.4:
-                sub = pg.Section(level=2, words=[W(f"Sub{si}")], blocks=[block()])
+                sub = pg.Section(level=2, words=[W(rng.choice([f"Sub{si}", "Work", "Log"]))], blocks=[block()])
                 sec.children.append(sub)
             p.sections.append(sec)
         z.pages[rel] = p
